@@ -140,6 +140,39 @@ func c15case(fail func(string, ...any), tr *transcript, k *gen.Kind, vals []ref.
 	if err != nil || !bytes.Equal(s.got, want.B) {
 		fail("%s: WriteColumn+Flush of %d rows differs from reference (err=%v)", k.T.Name, len(vals), err)
 	}
+	// WriteColumn through a writer whose buffer already holds bytes (the starting state of the
+	// output buffer, vectored flavour): they stay in front, the column follows.
+	{
+		s2 := &sink{failAt: -1}
+		wr2 := proto.NewWriter(s2, &proto.Buffer{Buf: append([]byte(nil), junk...)})
+		err = safely(func() error { fill(k, vals, false).Column().WriteColumn(wr2); _, e := wr2.Flush(); return e })
+		tr.line("%s|write-junk%d|%s|%s", id, len(junk), errClass(err), sha(s2.got))
+		if err != nil || !bytes.Equal(s2.got, append(append([]byte(nil), junk...), want.B...)) {
+			fail("%s: WriteColumn+Flush of %d rows through a writer whose buffer held %d bytes: err=%v, got %d bytes, want the %d held bytes followed by the %d column bytes (first difference at %d)",
+				k.T.Name, len(vals), len(junk), err, len(s2.got), len(junk), len(want.B), firstDiff(s2.got, append(append([]byte(nil), junk...), want.B...)))
+		}
+	}
+	// DecodeColumn from a reader that has already served other reads (its scratch buffer is
+	// not empty), also for zero rows.
+	{
+		r := readerOf(append(append([]byte(nil), junk...), want.B...))
+		target := k.New()
+		pre, perr := r.ReadRaw(len(junk))
+		pre = append([]byte(nil), pre...) // ReadRaw hands out the reader's scratch buffer
+		err := perr
+		if err == nil {
+			err = safely(func() error { return target.Column().DecodeColumn(r, len(vals)) })
+		}
+		dg, n, rerr := rowsDigest(target)
+		tr.line("%s|dec-used-reader|%s|rows=%d|%s|%v", id, errClass(err), n, dg, rerr)
+		if err != nil || !bytes.Equal(pre, junk) {
+			fail("%s: DecodeColumn of %d rows from a reader that served a %d-byte read before: %v", k.T.Name, len(vals), len(junk), err)
+		}
+		got, _ := readAll(target)
+		if j, ok := ref.EqualRows(k.T, got, vals); !ok {
+			fail("%s: DecodeColumn of %d rows from a used reader: %d rows read, row %d differs", k.T.Name, len(vals), len(got), j)
+		}
+	}
 	// DecodeColumn of valid bytes into a fresh and into a used-then-reset column.
 	for _, mode := range []string{"fresh", "reset"} {
 		target := k.New()
@@ -267,7 +300,7 @@ func TestC15Differential(t *testing.T) {
 		arb := rapid.SliceOfN(rapid.Byte(), 0, 96).Draw(rt, "arbitrary")
 		c15case(func(f string, a ...any) { rt.Fatalf(f, a...) }, tr, k, vals, junk, arb, "random")
 		st.Case(stats.Hash("c15", k.Key(), encodeRefColumn(k.T, vals), junk, arb), true, func() any {
-			return map[string]any{"kind": "dual-codec-case", "type": k.T.Name, "rows": rows, "junk_prefix": len(junk), "arbitrary_bytes": len(arb), "ops": "enc-empty, enc-junk, write, dec-fresh, dec-reset, dec-arbitrary, dec-short"}
+			return map[string]any{"kind": "dual-codec-case", "type": k.T.Name, "rows": rows, "junk_prefix": len(junk), "arbitrary_bytes": len(arb), "ops": "enc-empty, enc-junk, write, write-junk, dec-used-reader, dec-fresh, dec-reset, dec-arbitrary, dec-short"}
 		})
 		st.Label("codec:" + k.Scalar)
 	})
